@@ -35,7 +35,7 @@ TEXT = {
              "the C++ rings in their own exact allocations, so one slot outside is a sanitizer failure. In addition "
              "every (head, tail) pair of every ring size 2..17 (2..24 thorough) is reached through the API and every "
              "single operation with every argument value is applied to it (whole bounded space). Separate targets use ring sizes 250..262, 508..516, 41..300 and (byte rings) 65530..65542 with histories of 3*size+40 operations. Nothing is "
-             "established beyond the explored histories and sizes. A further target drives cyclic_buffer<int> and the ring_counter helpers with 30000..96000 samples (push bursts, every index read back).",
+             "established beyond the explored histories and sizes. A further target drives cyclic_buffer<int> and the ring_counter helpers with 30000..96000 samples (push bursts, every index read back). Further targets use ring<std::string> with heap-owning strings and a ring that is move-constructed while its source is destroyed.",
     "note": "Trusted: std::deque as the reference queue, clang ASan/UBSan. ring_getc may return the byte as signed "
             "or unsigned char (both accepted) as long as it is not -1, the 'empty' code. Not covered: operations "
             "called outside their preconditions (push on a full igris::ring, pop on an empty one, move_head beyond "
